@@ -108,7 +108,7 @@ func (ec *evalCtx) resolveType(s string) types.Type {
 func ghostSort(s string) string {
 	s = strings.TrimSpace(s)
 	switch s {
-	case "int", "ref":
+	case "int", "ref", "lock":
 		return sortInt
 	case "bool":
 		return sortBool
